@@ -2,7 +2,7 @@
     Model: Model/Options.v over the generated table/program (Gen/Gen_Options.v, regenerated from
     src/IO/ProgramOptions.cpp on every run).  Lemmas: Proofs/OptionsP.v, Proofs/OptionsThm.v. *)
 From Coq Require Import List String ZArith Bool.
-From Inovesa Require Import Model.OptionsTypes Model.Options Gen.Gen_Options Proofs.OptionsP Proofs.OptionsThm Proofs.OptionsAlias.
+From Inovesa Require Import Model.OptionsTypes Model.Options Gen.Gen_Options Proofs.OptionsP Proofs.OptionsThm Proofs.OptionsAlias Proofs.OptionsAlias2.
 Import ListNotations.
 Local Open Scope string_scope.
 
@@ -235,3 +235,132 @@ Example negative_for_unsigned_example :
   /\ (exists s, parse gen_table wfu gen_prog [(Short "s", [3%Z]); (Long "config", [9%Z])] (fun _ => FFile [("GridSize", [5%Z])]) FNoFile = Run s)
   /\ (exists s, parse gen_table wfu gen_prog [(Long "RenormalizeCharge", [5%Z])] (fun _ => FNoFile) FNoFile = Run s).
 Proof. vm_compute. repeat split; try reflexivity; eexists; reflexivity. Qed.
+
+(* ============================================================================================ *)
+(** * Third wave (family opts2): the two-parse equation without assuming that the second parse runs *)
+
+(** C20.2 legacy names, as an equation between two parses.  [fs'], [dflt'] are the files [fs], [dflt] (= ./default.cfg)
+    with every legacy name replaced by its current name ([rename_fsent]).  For every table/program accepted by the
+    checker, every token oracle and every command line, provided the loaded file gives no option under both its
+    legacy and its current name ([no_double]):
+    (1) if the original invocation runs, the renamed one runs, and the two final states have the same variables map
+        and the same value in EVERY bound member (not only those of current options);
+    (2) one stops (information switch, named file missing) iff the other does;
+    (3) the renamed invocation fails only if the original fails;
+    (4) the two outcomes are equal ([same_outcome]: same status, and when they run same variables map and members;
+        only the record of which names the file gave differs - nothing reads it afterwards) when moreover the
+        loaded file gives under its legacy name no option that the command line gives ([no_shadowed]).
+    Without [no_shadowed] the converse of (1) is false ([alias_equivalence_status_refuted]): the legacy line is
+    converted although the command line overrides it, the same line under the current name is skipped unread.
+    Without [no_double]: [alias_equivalence_both_names] above, [both_names_current_wins] below. *)
+Theorem alias_equivalence :
+  forall (T : list opt) (P : prog), checker T P = true ->
+  forall wf cli fs fs' dflt dflt',
+  (forall t, fs' t = rename_fsent (prog_aliases P) (fs t)) -> dflt' = rename_fsent (prog_aliases P) dflt ->
+  (forall items, resolve_all T cli = Some items -> no_double (prog_aliases P) (loaded T P items fs dflt)) ->
+  (forall s, parse T wf P cli fs dflt = Run s ->
+     exists s', parse T wf P cli fs' dflt' = Run s'
+                /\ (forall n, s_vm s' n = s_vm s n) /\ (forall x, s_vars s' x = s_vars s x))
+  /\ (parse T wf P cli fs dflt = Stop <-> parse T wf P cli fs' dflt' = Stop)
+  /\ (parse T wf P cli fs' dflt' = Fail -> parse T wf P cli fs dflt = Fail)
+  /\ ((forall items, resolve_all T cli = Some items ->
+                     no_shadowed (prog_aliases P) items (loaded T P items fs dflt)) ->
+      same_outcome (parse T wf P cli fs dflt) (parse T wf P cli fs' dflt')).
+Proof. intros T P CK. exact (alias_equivalence_thm T P CK). Qed.
+Print Assumptions alias_equivalence.
+
+(** hypotheses satisfiable, conclusion not vacuous: `-N <t4> --config f` with legacy names, a malformed-free file:
+    both side conditions hold, both runs agree on every member of the table; with an information switch both stop;
+    with an unknown name in the file both fail *)
+Example alias_equivalence_example2 :
+  let f := [("RFVoltage", [7%Z]); ("steps", [8%Z]); ("SyncFreq", [9%Z]); ("GridSize", [3%Z])] in
+  let cli := [(Short "N", [4%Z]); (Long "config", [5%Z])] in
+  let al := prog_aliases gen_prog in
+  no_double al f /\ no_shadowed al [("StepsPerTs", [4%Z]); ("config", [5%Z])] [("RFVoltage", [7%Z]); ("SyncFreq", [9%Z])]
+  /\ match parse gen_table (fun _ _ => true) gen_prog cli (fun _ => FFile f) FNoFile,
+           parse gen_table (fun _ _ => true) gen_prog cli (fun _ => FFile (rename_items al f)) FNoFile with
+     | Run s, Run s' => forallb (fun o => match s_vars s (o_var o), s_vars s' (o_var o) with
+                                          | Some a, Some b => if list_eq_dec Z.eq_dec a b then true else false
+                                          | None, None => true | _, _ => false end) gen_table = true
+                        /\ s_vars s' "V_RF" = Some [7%Z] /\ s_vars s' "steps_per_Ts" = Some [4%Z]
+     | _, _ => False
+     end
+  /\ parse gen_table (fun _ _ => true) gen_prog ((Long "version", []) :: cli) (fun _ => FFile f) FNoFile = Stop
+  /\ parse gen_table (fun _ _ => true) gen_prog cli (fun _ => FFile (("NoSuchName", [1%Z]) :: f)) FNoFile = Fail
+  /\ parse gen_table (fun _ _ => true) gen_prog cli (fun _ => FFile (rename_items al (("NoSuchName", [1%Z]) :: f))) FNoFile = Fail.
+Proof.
+  cbv zeta. split; [|split].
+  - intros a c I. vm_compute in I. destruct I as [E|[E|[E|[]]]]; injection E as <- <-; vm_compute; congruence.
+  - intros a c I. vm_compute in I. destruct I as [E|[E|[E|[]]]]; injection E as <- <-; vm_compute; congruence.
+  - vm_compute. repeat split; reflexivity.
+Qed.
+
+(** (4) needs [no_shadowed], and the converse of (1) is false without it: `-V <t5> --config f`, f = { RFVoltage=<t66> },
+    <t66> not a number.  The file gives the option under one name only; the original invocation FAILS (the legacy line
+    is converted: the legacy name is not final), the renamed one RUNS with <t5> (the line under the current name is
+    skipped unread: the command line has made the option final).  The implementation agrees (boundary case `alias-
+    shadowed-malformed` of the correspondence).  The stricter behaviour is the legacy name's; the value is unused
+    either way. *)
+Theorem alias_equivalence_status_refuted :
+  exists wf cli f,
+    no_double (prog_aliases gen_prog) f
+    /\ parse gen_table wf gen_prog cli (fun _ => FFile f) FNoFile = Fail
+    /\ match parse gen_table wf gen_prog cli (fun _ => FFile (rename_items (prog_aliases gen_prog) f)) FNoFile with
+       | Run s' => s_vars s' "V_RF" = Some [5%Z]
+       | _ => False
+       end.
+Proof.
+  exists (fun _ t => negb (Z.eqb t 66)), [(Short "V", [5%Z]); (Long "config", [9%Z])], [("RFVoltage", [66%Z])].
+  split; [|split].
+  - intros a c I. vm_compute in I. destruct I as [E|[E|[E|[]]]]; injection E as <- <-; vm_compute; congruence.
+  - vm_compute. reflexivity.
+  - vm_compute. reflexivity.
+Qed.
+Print Assumptions alias_equivalence_status_refuted.
+
+(** Both names of one option in the loaded file (which [no_double] excludes), the option not on the command line:
+    for every accepted table/program the line(s) under the CURRENT name give the member its value; the legacy line
+    is converted all the same - each of its tokens is well formed for the option's type, else parse() would have
+    failed - and is then dropped without a message.  (The statement of C20 does not say which of the two should win;
+    the renamed file repeats a scalar and is refused: [alias_equivalence_both_names].) *)
+Theorem both_names_current_wins :
+  forall (T : list opt) (P : prog), checker T P = true ->
+  forall wf cli fs dflt s, parse T wf P cli fs dflt = Run s ->
+  exists items, resolve_all T cli = Some items /\
+    forall o a, In o T -> is_canon o = true -> typed o = true ->
+      alias_of (prog_aliases P) (o_name o) = Some a ->
+      occurs (o_name o) items = false ->
+      occurs (o_name o) (loaded T P items fs dflt) = true -> occurs a (loaded T P items fs dflt) = true ->
+      s_vars s (o_var o) = Some (collect T false (o_name o) (loaded T P items fs dflt))
+      /\ forall toks t, In (a, toks) (loaded T P items fs dflt) -> In t toks -> wf (o_ty o) t = true.
+Proof. intros T P CK. exact (both_names_thm T P CK). Qed.
+Print Assumptions both_names_current_wins.
+
+Example both_names_example :
+  let wf := fun (_ : cty) t => negb (Z.eqb t 66) in
+  match parse gen_table wf gen_prog [(Long "config", [5%Z])]
+          (fun _ => FFile [("RFVoltage", [7%Z]); ("AcceleratingVoltage", [6%Z])]) FNoFile with
+  | Run s => s_vars s "V_RF" = Some [6%Z] | _ => False end
+  /\ parse gen_table wf gen_prog [(Long "config", [5%Z])]
+        (fun _ => FFile [("RFVoltage", [66%Z]); ("AcceleratingVoltage", [6%Z])]) FNoFile = Fail.
+Proof. vm_compute. split; reflexivity. Qed.
+
+(** The theorem is about every accepted table: a legacy name of a VECTOR option (the tree has none) is covered.
+    A three-option table with a vector option "Cur" and its legacy name "I" passes the checker; three lines
+    under the legacy name collect like three lines under the current name. *)
+Definition vec_table : list opt :=
+  [mkOpt "Cur" None "I_b" TVecFloat true true (Some (-1)%Z) (Some (-1)%Z) false KCanon;
+   mkOpt "I" None "I_b" TVecFloat false true None None false (KAlias "Cur");
+   mkOpt "config" (Some "c") "_configfile" TString true false None None false KCanon].
+Definition vec_prog : prog :=
+  mkProg [StoreCli; Notify] [] "config" [StoreCfg; FoldAliases [("I", "Cur")]; Notify] true.
+Example alias_equivalence_vector :
+  checker vec_table vec_prog = true
+  /\ let f := [("I", [1%Z]); ("I", [2%Z]); ("I", [3%Z])] in
+     match parse vec_table (fun _ _ => true) vec_prog [(Long "config", [5%Z])] (fun _ => FFile f) FNoFile,
+           parse vec_table (fun _ _ => true) vec_prog [(Long "config", [5%Z])]
+             (fun _ => FFile (rename_items (prog_aliases vec_prog) f)) FNoFile with
+     | Run s, Run s' => s_vars s "I_b" = Some [1%Z; 2%Z; 3%Z] /\ s_vars s' "I_b" = s_vars s "I_b"
+     | _, _ => False
+     end.
+Proof. vm_compute. repeat split; reflexivity. Qed.
